@@ -104,7 +104,7 @@ impl RepoCfg {
         let compression = if version == 1 {
             if rng.chance(1, 2) { Some(0) } else { None }
         } else {
-            match rng.weighted(&[40, 10, 10, 10, 8, 1, 1]) {
+            match rng.weighted(&[80, 20, 20, 20, 16, 2, 1]) {
                 0 => None,
                 1 => Some(0),
                 2 => Some(1),
